@@ -186,8 +186,14 @@ func Power(ctx *expr.Context, input system.Collection, args ...expr.Expression) 
 		if err != nil {
 			return nil, err
 		}
-		// Powering ints
-		res := powInt32(number, exp)
+		// Powering ints: an exact Integer when there is one, empty when it cannot be represented
+		if exp < 0 {
+			return system.Collection{system.Integer(0)}, nil
+		}
+		res, ok := powInt32(number, exp)
+		if !ok {
+			return system.Collection{}, nil
+		}
 		return system.Collection{system.Integer(res)}, nil
 	}
 	// Input type conversion to float64
@@ -363,18 +369,30 @@ func logToBase(number, base float64) float64 {
 	return math.Log(number) / math.Log(base)
 }
 
-// powInt32 returns the powering of a number to a given exponential.
-func powInt32(base, exp int32) int32 {
-	if exp == 0 {
-		return 1
+// powInt32 returns base raised to the non-negative exponent, and false if the result
+// does not fit an Integer.
+func powInt32(base, exp int32) (int32, bool) {
+	switch base {
+	case 0:
+		if exp == 0 {
+			return 1, true
+		}
+		return 0, true
+	case 1:
+		return 1, true
+	case -1:
+		if exp%2 == 0 {
+			return 1, true
+		}
+		return -1, true
 	}
-	if exp < 0 {
-		return 0
+	// |base| >= 2: the result leaves the Integer range after at most 31 multiplications
+	result := int64(1)
+	for i := int32(0); i < exp; i++ {
+		result *= int64(base)
+		if result > math.MaxInt32 || result < math.MinInt32 {
+			return 0, false
+		}
 	}
-
-	result := base
-	for i := int32(2); i <= exp; i++ {
-		result *= base
-	}
-	return result
+	return int32(result), true
 }
